@@ -130,7 +130,9 @@ def grep_forbidden(prop=None):
     if prop is None:
         files = lean_sources()
     else:
-        files = [os.path.join(LEAN, *m.split(".")) + ".lean" for m in import_closure("Props." + prop)]
+        mods = set(import_closure("Props." + prop)) | set(import_closure("Family." + prop)) | \
+            (set(import_closure("Gen.SchemaBuilds")) if prop in FAMILY_BUILDS else set())
+        files = [os.path.join(LEAN, *m.split(".")) + ".lean" for m in sorted(mods)]
     for p in files:
         src = _strip_comments(open(p).read())
         for i, line in enumerate(src.splitlines()):
